@@ -19,7 +19,7 @@ func init() {
 		Rule: "certificates written by the harness' own DER writer (SAN with DNS names / only IP / empty / absent; CN set or absent) and hosts; " +
 			"(a) every (pattern, host) pair of strings up to the tier's length over {a A . *} (thorough: also {a A b . *}) in six certificate modes (SAN with the DNS name; CN only; SAN with only an IP / an unrelated DNS name / empty / only an e-mail, each with CN = pattern), enumerated completely; " +
 			"(b) a fixed grid of IP-literal spellings x IP SAN sets x modes, enumerated completely; " +
-			"(c) random names over {a b A B 1 . * [ ] : 0x80 e-acute E-acute %} of length 0..12 with hosts derived by near-miss edits; " +
+			"(b2) every (pattern, host) pair of labels of <= 2 units over {a A 0x80 0xfe 0xff 0xc3 0xa9 U+FFFD}; (c) random names over {a b A B k K s i I 1 . * [ ] : % and the non-ASCII units 0x80 0xc3 0xa9 0xfe 0xff U+FFFD e-acute E-acute Kelvin-sign long-s dotted-I} with hosts derived by near-miss edits (incl. replacing exactly one non-ASCII unit by another); " +
 			"non-trivial = reference accepts, or host is an IP literal with IP SANs present, or host and some candidate name have the same number of labels; distinct by (names, host); " +
 			"enumerated pairs are distinct by construction",
 		MinNontrivial:         150000,
@@ -336,6 +336,51 @@ func runC09(c *core.Ctx) {
 	c.Exhaustive("ip-literal spellings x IP SAN subsets x textual-name modes", gridCases)
 	c.Count("ip_grid_cases", int(gridCases))
 
+	// ---- (b2) labels of <= 2 units over ASCII letters, stray bytes, U+FFFD: every (pattern, host) pair ----
+	{
+		units := []string{"a", "A", "\x80", "\xfe", "\xff", "\xc3", "\xa9", "\xef\xbf\xbd"}
+		labels := []string{""}
+		for _, x := range units {
+			labels = append(labels, x)
+			for _, y := range units {
+				labels = append(labels, x+y)
+			}
+		}
+		var n2, nt2 int64
+		idx := 0
+		for _, shape := range []struct{ psuf, hsuf string }{{"", ""}, {".A", ".a"}, {".a\xfe", ".A\xfe"}} {
+			for _, pl := range labels {
+				for _, mode := range []int{modeSANDNS, modeCNOnly, modeSANOtherCN} {
+					idx++
+					if idx%c.NShards != c.Shard {
+						continue
+					}
+					pattern := pl + shape.psuf
+					n, cn, extra := namesForMode(mode, pattern)
+					zc, pc, err := buildHostCert(n, cn, extra)
+					if err != nil {
+						c.Count("cert_rejected_by_parser", 1)
+						continue
+					}
+					if !faithful(zc, n) {
+						c.Count("parsed_names_differ_from_ground_truth(skipped)", 1)
+						continue
+					}
+					for _, hl := range labels {
+						if st.checkHost(zc, pc, n, hl+shape.hsuf, "exh:non-ascii-units<=2") {
+							nt2++
+						}
+						n2++
+					}
+				}
+			}
+		}
+		c.Eval(int(n2))
+		c.NontrivialEnumerated(nt2)
+		c.Exhaustive("pattern,host labels of <=2 units over {a A 80 fe ff c3 a9 U+FFFD} x 3 shapes x 3 certificate modes", n2)
+		c.Count("non_ascii_unit_pairs", int(n2))
+	}
+
 	// ---- (c) random near-misses --------------------------------------------------------
 	rng := c.Rng
 	ncert := c.PerShard(c.Pick(40000, 1500000))
@@ -365,7 +410,12 @@ func runC09(c *core.Ctx) {
 	}
 }
 
-var c09Alphabet = []string{"a", "b", "A", "B", "1", ".", ".", "*", "[", "]", ":", "\x80", "\xc3\xa9", "\xc3\x89", "%"}
+var c09Alphabet = []string{"a", "b", "A", "B", "1", ".", ".", "*", "[", "]", ":", "\x80", "\xc3\xa9", "\xc3\x89", "%",
+	"\xfe", "\xff", "\xc3", "\xef\xbf\xbd", "\xe2\x84\xaa", "\xc5\xbf", "\xc4\xb0", "k", "K", "s", "i", "I"}
+
+// c09NonASCII are the non-ASCII units of the alphabet: several distinct bytes that are invalid UTF-8 on their own
+// (0x80, 0xc3, 0xfe, 0xff, 0xa9), U+FFFD itself, and valid runes with ASCII-looking case partners (e-acute pair, Kelvin sign, long s, dotted I).
+var c09NonASCII = []string{"\x80", "\xfe", "\xff", "\xc3", "\xa9", "\xef\xbf\xbd", "\xc3\xa9", "\xc3\x89", "\xe2\x84\xaa", "\xc5\xbf", "\xc4\xb0"}
 
 func randomName(rng *rand.Rand) string {
 	switch rng.IntN(10) {
@@ -386,6 +436,12 @@ func randomName(rng *rand.Rand) string {
 				ls = append(ls, "\xc3\x89b")
 			case 5:
 				ls = append(ls, "\x80")
+			case 6: // a label mixing ASCII of both cases with one non-ASCII unit
+				l := []string{"a", "A", "b", "B", "k", "K", "s", "I"}[rng.IntN(8)] + c09NonASCII[rng.IntN(len(c09NonASCII))]
+				if rng.IntN(2) == 0 {
+					l += []string{"a", "B", "1"}[rng.IntN(3)]
+				}
+				ls = append(ls, l)
 			default:
 				l := 1 + rng.IntN(2)
 				s := ""
@@ -487,7 +543,7 @@ func randomHost(rng *rand.Rand, n *hostNames) string {
 	h := pool[rng.IntN(len(pool))]
 	for k := rng.IntN(3); k >= 0; k-- {
 		ls := strings.Split(h, ".")
-		switch rng.IntN(16) {
+		switch rng.IntN(17) {
 		case 0: // verbatim
 		case 1:
 			h = swapCase(rng, h)
@@ -526,10 +582,12 @@ func randomHost(rng *rand.Rand, n *hostNames) string {
 			i := rng.IntN(len(ls))
 			ls[i] = strings.Replace(ls[i], "*", []string{"a", "", "b*"}[rng.IntN(3)], 1)
 			h = strings.Join(ls, ".")
-		case 13:
-			h = h + h[len(h)/2:]
+		case 13: // replace one non-ASCII unit (or one stray byte) by a different one, everything else verbatim
+			h = swapNonASCII(rng, h)
 		case 14:
 			h += ".."
+		case 15:
+			h = h + h[len(h)/2:]
 		default:
 			if len(h) > 0 {
 				i := rng.IntN(len(h))
@@ -538,4 +596,39 @@ func randomHost(rng *rand.Rand, n *hostNames) string {
 		}
 	}
 	return h
+}
+
+// swapNonASCII replaces one non-ASCII unit of h (a known unit if one is found, else a single byte >= 0x80) by another unit.
+func swapNonASCII(rng *rand.Rand, h string) string {
+	type hit struct{ at, n int }
+	var hits []hit
+	for i := 0; i < len(h); i++ {
+		if h[i] < 0x80 {
+			continue
+		}
+		n := 1
+		for _, u := range c09NonASCII {
+			if len(u) > n && strings.HasPrefix(h[i:], u) {
+				n = len(u)
+			}
+		}
+		hits = append(hits, hit{i, n})
+		if rng.IntN(2) == 0 { // also offer the single byte, so that a multi-byte rune can be broken up
+			hits = append(hits, hit{i, 1})
+		}
+		i += n - 1
+	}
+	if len(hits) == 0 {
+		if len(h) == 0 {
+			return h
+		}
+		i := rng.IntN(len(h))
+		return h[:i] + c09NonASCII[rng.IntN(len(c09NonASCII))] + h[i:]
+	}
+	x := hits[rng.IntN(len(hits))]
+	repl := c09NonASCII[rng.IntN(len(c09NonASCII))]
+	for repl == h[x.at:x.at+x.n] {
+		repl = c09NonASCII[rng.IntN(len(c09NonASCII))]
+	}
+	return h[:x.at] + repl + h[x.at+x.n:]
 }
